@@ -658,6 +658,39 @@ static inline bool check_signature(const Operand_& o0, const Operand_& o1, const
          o2.signature() == o3.signature();
 }
 
+// Returns a mask of the operands (bit N represents operand N) the given encoding reads an element index of. A vector
+// operand that has an element index anywhere else would be encoded as if it had none.
+static inline uint32_t element_index_operands(uint32_t encoding) noexcept {
+  switch (encoding) {
+    case InstDB::kEncodingFSimdVVVe:
+    case InstDB::kEncodingISimdVVVe:
+    case InstDB::kEncodingSimdDot:
+    case InstDB::kEncodingSimdFcmla:
+    case InstDB::kEncodingSimdFmlal:
+    case InstDB::kEncodingSimdSm3tt:
+      return 0x4u;
+
+    case InstDB::kEncodingSimdDup:
+    case InstDB::kEncodingSimdSmovUmov:
+      return 0x2u;
+
+    case InstDB::kEncodingSimdFmov:
+    case InstDB::kEncodingSimdIns:
+    case InstDB::kEncodingSimdMov:
+      return 0x3u;
+
+    case InstDB::kEncodingSimdLdNStN:
+      return 0xFu;
+
+    default:
+      return 0x0u;
+  }
+}
+
+static inline uint32_t has_element_index(const Operand_& op) noexcept {
+  return uint32_t(op.is_reg() && op.as<Vec>().has_element_index());
+}
+
 // Checks whether the register is GP register of the allowed types.
 //
 // Allowed is a 2-bit mask, where the first bits allows Gp32 and the second bit allows Gp64. These bits are usually
@@ -908,6 +941,14 @@ Error Assembler::_emit(InstId inst_id, const Operand_& o0, const Operand_& o1, c
            (uint32_t(o2.op_type()) << 6) +
            (uint32_t(o3.op_type()) << 9);
   inst_flags = inst_info->flags();
+
+  // An element index is only read by a few encodings, and only from the operand that addresses a single element.
+  {
+    uint32_t index_mask = has_element_index(o0) | (has_element_index(o1) << 1) | (has_element_index(o2) << 2) | (has_element_index(o3) << 3);
+    if (ASMJIT_UNLIKELY((index_mask & ~element_index_operands(inst_info->_encoding)) != 0u)) {
+      goto InvalidInstruction;
+    }
+  }
 
   switch (inst_info->_encoding) {
     // ------------------------------------------------------------------------
@@ -3635,6 +3676,10 @@ Case_BaseLdurStur:
 
       if (isign4 == ENC_OPS2(Reg, Imm)) {
         if (o0.as<Reg>().is_vec()) {
+          // Only the forms that move to / from a general purpose register address a single element ('v0.d[1]').
+          if (o0.as<Vec>().has_element_index())
+            goto InvalidInstruction;
+
           double fp_value;
           if (o1.as<Imm>().is_double())
             fp_value = o1.as<Imm>().value_as<double>();
